@@ -1132,22 +1132,26 @@ func judge(c caseCfg, o obs) []finding {
 		out = append(out, finding{"error-but-processed", "the client got an error but a node processed the request; " + chain()})
 	}
 	// L1: otherwise forwarded once to a capable peer. Demanded only when the request is not marked as forwarded
-	// and every peer the receiving node could pick (recorded healthy with a recorded role able to serve it) really is
-	// reachable and capable, so that the answer does not depend on which of them the router picks.
+	// and every peer the receiving node could pick (a member recorded healthy with a recorded role able to serve it)
+	// really is reachable and capable, so that the answer does not depend on which of them the router picks; the node
+	// that served it must then be one of those peers as the cluster stands NOW (in a request history: not a node that
+	// was eligible for an earlier request and has since been recorded unhealthy/dead, re-roled or unregistered).
 	if !capable(c, 0) && c.Hdr == hAbsent && o.Proc[0] == 0 {
 		cand, good := 0, 0
+		goodPeer := make([]bool, N)
 		for j := 1; j < N; j++ {
 			p := c.Nodes[j]
-			if (p.Health == 'h' || p.Health == 'x') && specCan(p.Rec, isW) {
+			if !p.Gone && (p.Health == 'h' || p.Health == 'x') && specCan(p.Rec, isW) {
 				cand++
 				if p.Health == 'h' && capable(c, j) {
 					good++
+					goodPeer[j] = true
 				}
 			}
 		}
 		if cand > 0 && good == cand {
-			if !(o.Forwards == 1 && sum == 1 && procBy > 0 && capable(c, procBy) && ok2xx(o.Status)) {
-				out = append(out, finding{"not-forwarded-to-capable-peer", "the receiving node cannot serve the request, a healthy capable peer exists in its registry, yet the request was not served through exactly one forward; " + chain()})
+			if !(o.Forwards == 1 && sum == 1 && procBy > 0 && goodPeer[procBy] && ok2xx(o.Status)) {
+				out = append(out, finding{"not-forwarded-to-capable-peer", "the receiving node cannot serve the request, a healthy capable peer exists in its registry, yet the request was not served by such a peer through exactly one forward; " + chain()})
 			}
 		}
 	}
@@ -1167,6 +1171,7 @@ type cfgItem struct {
 	nodes [maxNodes]nodeCfg
 	n     int8
 	space int8
+	hist  bool // a configuration of a history space (index into the history spaces)
 }
 
 type spaceDef struct {
@@ -1201,7 +1206,7 @@ func recvSet(full bool, healths []byte) []nodeCfg {
 				for _, rec := range roleLetters {
 					for _, ws := range recWS(rec) {
 						for _, h := range healths {
-							out = append(out, nodeCfg{real, rec, ws, h, router})
+							out = append(out, nodeCfg{real, rec, ws, h, router, false})
 						}
 					}
 				}
@@ -1216,7 +1221,7 @@ func recvSet(full bool, healths []byte) []nodeCfg {
 				}
 				seen[k] = true
 				for _, h := range healths {
-					out = append(out, nodeCfg{real, rw[0], rw[1], h, router})
+					out = append(out, nodeCfg{real, rw[0], rw[1], h, router, false})
 				}
 			}
 		}
@@ -1233,7 +1238,7 @@ func peerSet(healths []byte, consistentOnly bool) []nodeCfg {
 			}
 			for _, ws := range recWS(rec) {
 				for _, h := range healths {
-					out = append(out, nodeCfg{real, rec, ws, h, true})
+					out = append(out, nodeCfg{real, rec, ws, h, true, false})
 				}
 			}
 		}
@@ -1311,7 +1316,7 @@ func spaces(quick bool) []*spaceDef {
 	var solo []nodeCfg
 	for _, real := range roleLetters {
 		for _, router := range []bool{true, false} {
-			solo = append(solo, nodeCfg{real, real, '-', 'h', router})
+			solo = append(solo, nodeCfg{real, real, '-', 'h', router, false})
 		}
 	}
 	const recvLite = "receiving node {4 roles x router wired/absent x recorded by the others as {its real role, primary writer, reader}}"
@@ -1328,8 +1333,15 @@ func spaces(quick bool) []*spaceDef {
 			Desc: "3 nodes: " + recvLite + " x every multiset of 2 x " + peerFull + ", at most one node with a stale recorded role"})
 		add(&spaceDef{Name: "N3-select", N: 3, Recv: recvSet(false, h1), Peers: peerSet(h3, false), MaxStale: 1, Kinds: []int{kQuery}, Hdrs: twoHdrs,
 			Desc: "3 nodes, executed SELECT: peers healthy/unhealthy/failed, at most one stale node"})
-		add(&spaceDef{Name: "N4", N: 4, Recv: recvSet(false, h1), Peers: peerSet(h4, true), MaxStale: 0, Kinds: cheapKinds, Hdrs: mainHdrs,
-			Desc: "4 nodes, consistent registries: receiving node {4 roles x router wired/absent} x every multiset of 3 x " + peerCons})
+		// a receiving node without a router ignores its peers altogether (N1..N3 cover it): at N=4 only wired ones
+		var wired []nodeCfg
+		for _, r := range recvSet(false, h1) {
+			if r.Router {
+				wired = append(wired, r)
+			}
+		}
+		add(&spaceDef{Name: "N4", N: 4, Recv: wired, Peers: peerSet(h4, true), MaxStale: 0, Kinds: cheapKinds, Hdrs: mainHdrs,
+			Desc: "4 nodes, consistent registries: receiving node {4 roles, router wired; a writer also as recorded primary} x every multiset of 3 x " + peerCons})
 	} else {
 		add(&spaceDef{Name: "N2", N: 2, Recv: recvSet(true, h3), Peers: peerSet(h4, false), MaxStale: -1, Kinds: routedKinds, Hdrs: allHdrs,
 			Desc: "2 nodes: " + recvFull + " x " + peerFull})
@@ -1373,11 +1385,14 @@ type classes struct {
 	replay  map[string]any
 	minRuns int64
 	flaky   int
+	// request histories (history.go)
+	histMinimal map[string][]histCfg // oracle kind -> minimal histories found so far
+	singleFails map[string]bool      // oracle kind + final-state case key -> fails without any history as well
 }
 
 func attrReduces(c, m nodeCfg) bool {
 	roles := (m.Real == c.Real && (m.Rec == c.Rec || m.Rec == m.Real)) || (m.Real == c.Rec && m.Rec == c.Rec)
-	return roles && (m.WS == c.WS || m.WS == '-') && (m.Health == c.Health || m.Health == 'h') && (m.Router == c.Router || m.Router)
+	return roles && (m.WS == c.WS || m.WS == '-') && (m.Health == c.Health || m.Health == 'h') && (m.Router == c.Router || m.Router) && m.Gone == c.Gone
 }
 
 // reducesTo: can the raw case c be turned into the minimal case m by the minimiser's own steps
@@ -1574,7 +1589,7 @@ func describe(c caseCfg) []map[string]any {
 			who = "receiving node"
 		}
 		out = append(out, map[string]any{"node": nodeID(i), "is": who, "real_role": roleName[n.Real], "role_recorded_by_others": roleName[n.Rec],
-			"writer_state_recorded": string(n.WS), "health": string(n.Health), "router_wired": n.Router})
+			"writer_state_recorded": string(n.WS), "health": string(n.Health), "router_wired": n.Router, "unregistered": n.Gone})
 	}
 	return out
 }
@@ -1595,7 +1610,34 @@ func (ch *chassis) runRetry(c caseCfg) (obs, bool) {
 
 // ---------------------------------------------------------------------------------------------
 
-// loadReplay rebuilds the case of a replay artefact written by this check.
+type replayNode struct {
+	Real   string `json:"real_role"`
+	Rec    string `json:"role_recorded_by_others"`
+	WS     string `json:"writer_state_recorded"`
+	Health string `json:"health"`
+	Router bool   `json:"router_wired"`
+	Gone   bool   `json:"unregistered"`
+}
+
+func roleLetter(name string) byte {
+	for _, l := range roleLetters {
+		if roleName[l] == name {
+			return l
+		}
+	}
+	return 0
+}
+
+func (n replayNode) cfg() (nodeCfg, bool) {
+	nc := nodeCfg{Real: roleLetter(n.Real), Rec: roleLetter(n.Rec), Router: n.Router, Gone: n.Gone}
+	if len(n.WS) != 1 || len(n.Health) != 1 || nc.Real == 0 || nc.Rec == 0 {
+		return nodeCfg{}, false
+	}
+	nc.WS, nc.Health = n.WS[0], n.Health[0]
+	return nc, true
+}
+
+// loadReplay rebuilds the case of a replay artefact written by this check (histories: loadReplayHist).
 func loadReplay(path string) (caseCfg, bool) {
 	if path == "" {
 		return caseCfg{}, false
@@ -1606,15 +1648,9 @@ func loadReplay(path string) (caseCfg, bool) {
 	}
 	var f struct {
 		Replay struct {
-			Kind  string `json:"request_kind"`
-			Hdr   string `json:"client_header"`
-			Nodes []struct {
-				Real   string `json:"real_role"`
-				Rec    string `json:"role_recorded_by_others"`
-				WS     string `json:"writer_state_recorded"`
-				Health string `json:"health"`
-				Router bool   `json:"router_wired"`
-			} `json:"nodes"`
+			Kind  string       `json:"request_kind"`
+			Hdr   string       `json:"client_header"`
+			Nodes []replayNode `json:"nodes"`
 		} `json:"replay"`
 	}
 	if json.Unmarshal(b, &f) != nil || len(f.Replay.Nodes) == 0 || len(f.Replay.Nodes) > maxNodes {
@@ -1631,20 +1667,11 @@ func loadReplay(path string) (caseCfg, bool) {
 			c.Hdr = h
 		}
 	}
-	letter := func(name string) byte {
-		for l, n := range roleName {
-			if n == name {
-				return l
-			}
-		}
-		return 0
-	}
 	for _, n := range f.Replay.Nodes {
-		nc := nodeCfg{Real: letter(n.Real), Rec: letter(n.Rec), Router: n.Router}
-		if len(n.WS) != 1 || len(n.Health) != 1 || nc.Real == 0 || nc.Rec == 0 {
+		nc, ok := n.cfg()
+		if !ok {
 			return caseCfg{}, false
 		}
-		nc.WS, nc.Health = n.WS[0], n.Health[0]
 		c.Nodes = append(c.Nodes, nc)
 	}
 	if c.Kind < 0 || c.Hdr < 0 {
@@ -1677,7 +1704,24 @@ func main() {
 	defer cleanup()
 
 	sp := spaces(run.Quick())
+	hsp := histSpaces(run.Quick())
 	var items []cfgItem
+	// history configurations first: they are the larger work items
+	var totalHist, totalHistReq int64
+	for si, s := range hsp {
+		s.expand(si, func(it cfgItem) {
+			items = append(items, it)
+			s.configs++
+			s.forEach(it.nodes[:it.n], func(h histCfg) bool {
+				s.histories++
+				s.requests += int64(s.Len)
+				return true
+			})
+		})
+		totalHist += s.histories
+		totalHistReq += s.requests
+		fmt.Printf("history space %-8s N=%d requests/history=%d configs=%d histories=%d requests=%d\n", s.Name, s.N, s.Len, s.configs, s.histories, s.requests)
+	}
 	for si, s := range sp {
 		s.expand(si, func(it cfgItem) {
 			items = append(items, it)
@@ -1690,7 +1734,7 @@ func main() {
 		totalCases += s.cases
 		fmt.Printf("space %-18s N=%d configs=%d kinds=%d hdrs=%d cases=%d\n", s.Name, s.N, s.configs, len(s.Kinds), len(s.hdrsFor()), s.cases)
 	}
-	fmt.Printf("total configurations=%d cases=%d\n", len(items), totalCases)
+	fmt.Printf("total configurations=%d single-request cases=%d histories=%d (requests=%d)\n", len(items), totalCases, totalHist, totalHistReq)
 	if os.Getenv("VERIF_C30_DRY") != "" {
 		return
 	}
@@ -1706,6 +1750,9 @@ func main() {
 		nw, _ = strconv.Atoi(s)
 	}
 	if _, ok := loadReplay(run.Replay); ok {
+		nw = 1
+	}
+	if _, ok := loadReplayHist(run.Replay); ok {
 		nw = 1
 	}
 	t0 := time.Now()
@@ -1731,6 +1778,35 @@ func main() {
 	}
 	fmt.Printf("%d in-process clusters of %d nodes up in %.1fs\n", nw, maxNodes, time.Since(t0).Seconds())
 
+	if rh, ok := loadReplayHist(run.Replay); ok {
+		ch := chs[0]
+		bad := 0
+		for i := 0; i < 5; i++ {
+			res, okRun := ch.runHist(rh)
+			fmt.Printf("replay %d: %s (complete=%v)\n", i+1, rh, okRun)
+			failed := false
+			for _, r := range res {
+				fmt.Printf("  request %d %s on %s -> status=%d forwards=%d processed=%v\n", r.Step+1, kinds[r.Case.Kind].Name, r.Case, r.Obs.Status, r.Obs.Forwards, r.Obs.Proc)
+				for _, f := range r.Findings {
+					fmt.Printf("    %s: %s\n", f.Kind, f.Desc)
+					failed = true
+				}
+			}
+			if failed {
+				bad++
+			}
+		}
+		for _, c := range chs {
+			c.close()
+		}
+		cleanup()
+		if bad > 0 {
+			fmt.Printf("VIOLATION property=C30 replay=%s  # reproduced %d/5\n", run.Replay, bad)
+			os.Exit(1)
+		}
+		fmt.Println("replay: no violation")
+		os.Exit(0)
+	}
 	if rc, ok := loadReplay(run.Replay); ok {
 		ch := chs[0]
 		bad := 0
@@ -1762,18 +1838,47 @@ func main() {
 		return
 	}
 
-	cl := &classes{minimal: map[string][]caseCfg{}, sig: map[string]string{}, count: map[string]int{}, desc: map[string]string{}, replay: map[string]any{}}
+	cl := &classes{minimal: map[string][]caseCfg{}, sig: map[string]string{}, count: map[string]int{}, desc: map[string]string{}, replay: map[string]any{},
+		histMinimal: map[string][]histCfg{}, singleFails: map[string]bool{}}
 	var sampleMu sync.Mutex
 	sampleBy := map[string]any{} // one executed case per distinct outcome
 	var next, evals, nontriv, indeterminate, forwarded, rejected508 atomic.Int64
+	var histDone, histReqs, histNontriv, histIndet, histTargetChanged, histFwdThenNot, histNotThenFwd, histFwdBoth atomic.Int64
+	perHistEval := make([][]int64, nw)
 	var timeUp atomic.Bool
 	outcomes := make([]map[string]int64, nw)
 	perSpaceEval := make([][]int64, nw)
 	perSpaceNT := make([][]int64, nw)
-	const chunk = 16
+	const chunk = 4
+	outcomeKey := func(k int, o obs) string {
+		by := "nobody"
+		for i, p := range o.Proc {
+			if p > 0 {
+				if i == 0 {
+					by = "receiver"
+				} else {
+					by = "peer"
+				}
+			}
+		}
+		wq := "query"
+		if kinds[k].IsWrite {
+			wq = "write"
+		}
+		return fmt.Sprintf("%s status=%d forwards=%d served-by=%s", wq, o.Status, o.Forwards, by)
+	}
+	servedBy := func(o obs) int {
+		for i, p := range o.Proc {
+			if p > 0 {
+				return i
+			}
+		}
+		return -1
+	}
 	for w := 0; w < nw; w++ {
 		wg.Add(1)
 		outcomes[w] = map[string]int64{}
+		perHistEval[w] = make([]int64, len(hsp))
 		perSpaceEval[w] = make([]int64, len(sp))
 		perSpaceNT[w] = make([]int64, len(sp))
 		go func(w int) {
@@ -1792,6 +1897,69 @@ func main() {
 					if run.TimeUp() {
 						timeUp.Store(true)
 						return
+					}
+					if it.hist {
+						hs := hsp[it.space]
+						done := hs.forEach(it.nodes[:it.n], func(h histCfg) bool {
+							if run.TimeUp() {
+								return false
+							}
+							res, ok := ch.runHist(h)
+							if !ok {
+								histIndet.Add(1)
+								return true
+							}
+							histDone.Add(1)
+							perHistEval[w][it.space]++
+							nreq := 0
+							var prev *stepRes
+							for ri := range res {
+								r := &res[ri]
+								nreq++
+								evals.Add(1)
+								histReqs.Add(1)
+								if nontrivial(r.Case) {
+									nontriv.Add(1)
+									histNontriv.Add(1)
+								}
+								okey := fmt.Sprintf("history request %d: %s", nreq, outcomeKey(r.Case.Kind, r.Obs))
+								outcomes[w][okey]++
+								if outcomes[w][okey] == 1 {
+									sampleMu.Lock()
+									if _, have := sampleBy[okey]; !have {
+										sampleBy[okey] = map[string]any{"outcome": okey, "history": histCfg{Nodes: h.Nodes, Steps: h.Steps[:r.Step+1]}.String(),
+											"cluster_at_this_request": r.Case.String(), "status": r.Obs.Status, "forwards": r.Obs.Forwards, "processed_per_node": r.Obs.Proc}
+									}
+									sampleMu.Unlock()
+								}
+								if prev != nil && kinds[prev.Case.Kind].IsWrite == kinds[r.Case.Kind].IsWrite {
+									a, b := servedBy(prev.Obs), servedBy(r.Obs)
+									switch {
+									case a > 0 && b > 0 && a != b:
+										histTargetChanged.Add(1)
+									case a > 0 && b > 0:
+										histFwdBoth.Add(1)
+									case a > 0 && b <= 0:
+										histFwdThenNot.Add(1)
+									case a < 0 && b > 0:
+										histNotThenFwd.Add(1)
+									}
+								}
+								prev = r
+								for _, f := range r.Findings {
+									cl.reportHist(ch, histCfg{Nodes: h.Nodes, Steps: h.Steps[:r.Step+1]}, f)
+								}
+							}
+							return true
+						})
+						if !done {
+							timeUp.Store(true)
+							return
+						}
+						if ch.sinceFlush >= 20000 {
+							ch.reconcile()
+						}
+						continue
 					}
 					s := sp[it.space]
 					for _, k := range s.Kinds {
@@ -1814,21 +1982,7 @@ func main() {
 							if o.Status == 508 {
 								rejected508.Add(1)
 							}
-							by := "nobody"
-							for i, p := range o.Proc {
-								if p > 0 {
-									if i == 0 {
-										by = "receiver"
-									} else {
-										by = "peer"
-									}
-								}
-							}
-							wq := "query"
-							if kinds[k].IsWrite {
-								wq = "write"
-							}
-							okey := fmt.Sprintf("%s status=%d forwards=%d served-by=%s", wq, o.Status, o.Forwards, by)
+							okey := outcomeKey(k, o)
 							outcomes[w][okey]++
 							if outcomes[w][okey] == 1 {
 								sampleMu.Lock()
@@ -1903,11 +2057,38 @@ func main() {
 		spaceRows = append(spaceRows, map[string]any{"space": s.Name, "nodes": s.N, "what": s.Desc, "configurations": s.configs, "request_kinds": kn,
 			"client_headers": hn, "cases": s.cases, "evaluated": e, "nontrivial": nt, "max_stale_nodes": s.MaxStale})
 	}
-	exhaustive := !timeUp.Load() && evals.Load()+indeterminate.Load() == totalCases && indeterminate.Load() == 0
+	var histRows []map[string]any
+	for si, s := range hsp {
+		var e int64
+		for w := 0; w < nw; w++ {
+			e += perHistEval[w][si]
+		}
+		var kn, tn []string
+		for _, k := range s.Kinds {
+			kn = append(kn, kinds[k].Name)
+		}
+		for _, op := range s.Ops {
+			tn = append(tn, transName[op])
+		}
+		histRows = append(histRows, map[string]any{"space": s.Name, "nodes": s.N, "requests_per_history": s.Len, "what": s.Desc, "configurations": s.configs,
+			"request_kinds": kn, "transitions": tn, "histories": s.histories, "histories_executed": e, "requests": s.requests})
+	}
+	exhaustive := !timeUp.Load() && evals.Load()-histReqs.Load()+indeterminate.Load() == totalCases && indeterminate.Load() == 0 &&
+		histDone.Load() == totalHist && histReqs.Load() == totalHistReq && histIndet.Load() == 0
 	run.Coverage["evaluations"] = evals.Load()
 	run.Coverage["distinct_nontrivial"] = nontriv.Load()
 	run.Coverage["rule"] = "cases = every configuration of each listed space (receiving node x every multiset of peers x staleness bound) x request kind x client X-Arc-Forwarded-By value, each executed once on real fiber apps/handlers/routers wired over in-memory HTTP; all cases are distinct by construction (canonical key = kind, header, receiver attributes, sorted peer attributes); non-trivial = the receiving node cannot serve the request itself, or the client sent a forwarding header, or some node's recorded role is stale"
+	run.Coverage["rule"] = run.Coverage["rule"].(string) + "; PLUS request histories: every configuration of each history space x every sequence of request kinds x every applicable transition between consecutive requests, all requests sent to the same receiving node of one long-lived cluster (routers and registries kept, changed only through Registry.UpdateNodeState/Get+Register/Register/Unregister), every request judged against the cluster state at that moment and counted as one evaluation; histories are distinct by construction (identical initial peers are interchangeable: the first transition touches only the first of them)"
 	run.Coverage["spaces"] = spaceRows
+	run.Coverage["history_spaces"] = histRows
+	run.Coverage["single_request_cases"] = evals.Load() - histReqs.Load()
+	run.Coverage["histories"] = histDone.Load()
+	run.Coverage["history_requests"] = histReqs.Load()
+	run.Coverage["history_requests_nontrivial"] = histNontriv.Load()
+	run.Coverage["histories_indeterminate"] = histIndet.Load()
+	run.Coverage["history_consecutive_same_class_requests"] = map[string]int64{
+		"forwarded_then_forwarded_to_another_peer": histTargetChanged.Load(), "forwarded_twice_to_the_same_peer": histFwdBoth.Load(),
+		"forwarded_then_not_served_by_a_peer": histFwdThenNot.Load(), "served_by_nobody_then_by_a_peer": histNotThenFwd.Load()}
 	run.Coverage["exhaustive"] = exhaustive
 	run.Coverage["indeterminate_client_transport_errors"] = indeterminate.Load()
 	run.Coverage["client_transport_errors_retried"] = tErrs
@@ -1936,11 +2117,12 @@ func main() {
 	run.Assume("every node's registry holds its own LocalNode plus the same recorded entry for each other node (a shared, possibly stale, membership view); per-viewer divergent views are not enumerated")
 	run.Assume("peers are interchangeable (node ids are opaque to Router/Registry), so multisets of peers are enumerated instead of tuples; which of several equally eligible peers the router picks depends on Go map order and is not controlled — the safety clauses are demanded of whatever it picks, the 'must be forwarded' clause only when every eligible pick is good")
 	run.Assume("a client header on a request that the receiving node cannot serve may be answered by an error (508) instead of a forward: the property demands no local processing and no second hop there, not success")
+	run.Assume("request histories: receiving node with a router and a correctly recorded role, no client forwarding header, 2-3 nodes, 2 (quick) / 2-3 (thorough) requests with exactly one transition between consecutive requests; an unregistered peer keeps running and stays reachable; all nodes' registries receive the same transition; the 'served by a capable peer' clause counts a peer as eligible by the registry state at the time of THAT request (member, recorded healthy, recorded role able to serve) and demands that the serving node is one of them")
 	run.Assume("transport faults after delivery (forward retried by Router.forwardRequest after a lost response) are outside the configuration space; unreachable peers refuse the connection")
 	run.Assume("import, delete, continuous-query and management endpoints are not request kinds of this property; auth/RBAC disabled")
 	run.Assume("inter-node HTTP runs over fasthttputil in-memory listeners through the production http.Transport type injected via RouterConfig.Transport (DialContext only); no TLS")
 	if !exhaustive {
-		run.Assume(fmt.Sprintf("NOT exhaustive: %d of %d cases evaluated (time cap or %d indeterminate)", evals.Load(), totalCases, indeterminate.Load()))
+		run.Assume(fmt.Sprintf("NOT exhaustive: %d of %d single-request cases and %d of %d histories evaluated (time cap or %d+%d indeterminate)", evals.Load()-histReqs.Load(), totalCases, histDone.Load(), totalHist, indeterminate.Load(), histIndet.Load()))
 	}
 	sigs := make([]string, 0, len(cl.desc))
 	for s := range cl.desc {
@@ -1952,6 +2134,11 @@ func main() {
 			run.Violate(s, cl.desc[s], cl.replay[s])
 		}
 	}
+	for _, r := range histRows {
+		fmt.Printf("history space %-8v N=%v requests/history=%v configurations=%v histories=%v executed=%v\n", r["space"], r["nodes"], r["requests_per_history"], r["configurations"], r["histories"], r["histories_executed"])
+	}
+	fmt.Printf("histories=%d requests=%d nontrivial=%d; consecutive same-class requests: target changed=%d same target=%d forwarded-then-not=%d not-then-forwarded=%d\n",
+		histDone.Load(), histReqs.Load(), histNontriv.Load(), histTargetChanged.Load(), histFwdBoth.Load(), histFwdThenNot.Load(), histNotThenFwd.Load())
 	for _, r := range spaceRows {
 		fmt.Printf("space %-14v N=%v configurations=%v evaluated=%v nontrivial=%v\n", r["space"], r["nodes"], r["configurations"], r["evaluated"], r["nontrivial"])
 	}
@@ -1964,9 +2151,9 @@ func main() {
 }
 
 func bench(ch *chassis) {
-	W := nodeCfg{'W', 'W', '-', 'h', true}
-	R := nodeCfg{'R', 'R', '-', 'h', true}
-	C := nodeCfg{'C', 'C', '-', 'h', true}
+	W := nodeCfg{'W', 'W', '-', 'h', true, false}
+	R := nodeCfg{'R', 'R', '-', 'h', true, false}
+	C := nodeCfg{'C', 'C', '-', 'h', true, false}
 	for k := 0; k < nKinds; k++ {
 		for _, cc := range []caseCfg{{[]nodeCfg{W, R, C}, k, hAbsent}, {[]nodeCfg{C, W, R}, k, hAbsent}, {[]nodeCfg{C, C, C}, k, hAbsent}} {
 			n := 500
